@@ -142,6 +142,10 @@ let () =
                 (* trunc returned the real truncated value although the neighbouring integer is "near": fine when that
                    neighbour is not a value of the integer type *)
                 else if (not isround) && z = ideal && not (c17_inrange ty other) then "ok(unrepresentable)"
+                (* round returned one of the two neighbours although the documented choice (near-tie direction) is the other
+                   one: fine when that other one is not a value of the integer type *)
+                else if isround && (z = fl || z = Z.add fl (z_of_int 1))
+                        && not (c17_inrange ty (if z = fl then Z.add fl (z_of_int 1) else fl)) then "ok(unrepresentable)"
                 else "BAD result " ^ l ^ " is not the documented " ^ t.(0) ^ " of the argument (exact: " ^ dec_of_z ideal ^ ")")) in
         ires_str res, orc
       | "ipow" | "fact" | "binom" | "isign" ->
